@@ -314,6 +314,11 @@ def c_default(v: str) -> bool:
     return col2 == before
 
 
+def _ival(s: str):
+    """expected integer for numeral text s: uninterpreted under VF_UF, else its value computed digit by digit"""
+    return UInt(s) if UF else _num(s)
+
+
 def c_size(n1: str, n2: str) -> bool:
     """
     C01/C09: the real p_column on `column ( n )` (SFORM 0) / `column ( p , s )` (SFORM 1) with
@@ -329,9 +334,9 @@ def c_size(n1: str, n2: str) -> bool:
         return False
     if SFORM == 0:
         out = call_action("p_column", [col, "(", n1, ")"])
-        return out == {"name": "k", "type": "varchar", "size": UInt(n1)}
+        return out == {"name": "k", "type": "varchar", "size": _ival(n1)} and type(out["size"]) is type(_ival(n1))
     out = call_action("p_column", [col, "(", n1, ",", n2, ")"])
-    return out == {"name": "k", "type": "varchar", "size": (UInt(n1), UInt(n2))}
+    return out == {"name": "k", "type": "varchar", "size": (_ival(n1), _ival(n2))}
 
 
 SFORM = env_int("VF_SFORM", 0)
